@@ -29,7 +29,7 @@ Definition pek_name (k : pek) : string :=
 
 Definition gerr_obs (e : gerr) : obs :=
   match e with
-  | GParse (PE k line) => OList [OTag "ParseError"; OTag (pek_name k); OInt (Z.of_nat line)]
+  | GParse (PE k line _) => OList [OTag "ParseError"; OTag (pek_name k); OInt (Z.of_nat line)]
   | GParse PBadWs => OTag "BadWhitespace"
   | GParse PFuel => OTag "Fuel"
   | GNoLoader => OList [OTag "ParseError"; OTag "NoLoader"; OInt 0]
